@@ -50,11 +50,17 @@ impl<D: Digest + digest::FixedOutput + digest::FixedOutputDirty + digest::Reset 
             1 => digest::FixedOutput::finalize_fixed_reset(self).to_vec(),
             2 => {
                 let mut o = digest::generic_array::GenericArray::default();
+                for x in o.iter_mut() {
+                    *x = 0xa5; // an output buffer that was used before
+                }
                 digest::FixedOutput::finalize_into_reset(self, &mut o);
                 o.to_vec()
             }
             _ => {
                 let mut o = digest::generic_array::GenericArray::default();
+                for x in o.iter_mut() {
+                    *x = 0xa5; // an output buffer that was used before
+                }
                 digest::FixedOutputDirty::finalize_into_dirty(self, &mut o);
                 digest::Reset::reset(self);
                 o.to_vec()
@@ -67,6 +73,9 @@ impl<D: Digest + digest::FixedOutput + digest::FixedOutputDirty + digest::Reset 
             1 => digest::FixedOutput::finalize_fixed(*self).to_vec(),
             _ => {
                 let mut o = digest::generic_array::GenericArray::default();
+                for x in o.iter_mut() {
+                    *x = 0xa5; // an output buffer that was used before
+                }
                 digest::FixedOutput::finalize_into(*self, &mut o);
                 o.to_vec()
             }
